@@ -50,7 +50,7 @@ PROPS["C08"] = dict(
         "launched only for a twin-less task and registered both ways, the loop exits only when `pending` is "
         "empty, and the thread retrier re-raises after retries+1 attempts. These hold for every schedule of "
         "completions, including the same-round interleavings that tests with real timers never hit."
-            " Also: the original<->backup map is only ever changed symmetrically (MAP-TWIN-SYM-1), the batch refill sits between the wait and the next loop test, and the user's `retries` option reaches the retrier unmodified; the superseded check guards the re-raise as well as the emission (a twin handled earlier in the same round is not handled again)."
+            " Also: the original<->backup map is only ever changed symmetrically (MAP-TWIN-SYM-1), the batch refill sits between the wait and the next loop test, and the user's `retries` option reaches the retrier unmodified; the superseded check guards the re-raise as well as the emission (a twin handled earlier in the same round is not handled again). A failed task is set aside exactly when its twin exists and is still running or finished without exception (truth table over done()/exception()); the twin is marked delivered unconditionally; futures that are submitted are awaited (MAP-SUBMIT-1); the scheduling code never divides by an elapsed time (SCHED-DIV-1)."
     ),
     note="Does not decide timing thresholds of should_launch_backup, hangs inside asyncio, or IO fault behaviour of zarr/fsspec.",
     design="DESIGN.md §4 C08",
